@@ -26,12 +26,16 @@ static mut REC_CALLS: u32 = 0;
 /// recording stub for `chrono::TimeDelta::try_milliseconds` (the real `TimeDelta::milliseconds` is `expect(try_milliseconds(ms))`, so
 /// this observes the argument whether the code under test calls `milliseconds` or `try_milliseconds`). It does not model chrono's
 /// range check (None below -i64::MAX): totality / None paths are the business of the unstubbed harnesses in (A4).
+/// It returns a fixed, distinctive delta (1 d 01:01:01.007) so that the harness can also check what the code does with the value.
 fn rec_try_milliseconds(ms: i64) -> Option<TimeDelta> {
     unsafe {
         REC_MS = ms;
         REC_CALLS += 1;
     }
-    Some(TimeDelta::zero())
+    stub_delta()
+}
+fn stub_delta() -> Option<TimeDelta> {
+    TimeDelta::new(86_400 + 3_661, 7_000_000)
 }
 
 /// the millisecond offset the real `as_datetime` passes to chrono
@@ -39,11 +43,13 @@ fn ms_of(v: f64, is_1904: bool) -> i64 {
     unsafe {
         REC_CALLS = 0;
     }
-    let _ = ExcelDateTime::new(v, ExcelDateTimeType::DateTime, is_1904).as_datetime();
+    let r = ExcelDateTime::new(v, ExcelDateTimeType::DateTime, is_1904).as_datetime();
     unsafe {
         assert!(REC_CALLS == 1);
-        REC_MS
     }
+    // the result is the real chrono sum of the epoch 1899-12-30T00:00:00 and the delta obtained for `ms` (here: the stub's)
+    assert!(r == NaiveDate::from_ymd_opt(1899, 12, 31).unwrap().and_hms_milli_opt(1, 1, 1, 7));
+    unsafe { REC_MS }
 }
 
 /// the millisecond count the real `as_duration` passes to chrono (type tag and date system must not matter)
@@ -55,7 +61,7 @@ fn dur_ms_of(v: f64) -> i64 {
     let r = ExcelDateTime::new(v, ty, kani::any()).as_duration();
     unsafe {
         assert!(REC_CALLS == 1);
-        assert!(r.is_some());
+        assert!(r == stub_delta()); // as_duration returns exactly the delta obtained for `ms`
         REC_MS
     }
 }
@@ -213,9 +219,10 @@ fn sys1904_link() {
     kani::cover!(v == 0.0);
     assert!(ms_of(v, true) == ms_of(v + 1462.0, false));
 }
-/// 1900 system, any f64 outside [60,61): the offset from 1899-12-30 is the duration ("serial times 24h") of the serial, shifted by one day below 60
+/// 1900 system, any f64 in the supported span outside [60,61): the offset from 1899-12-30 is the duration ("serial times 24h") of the serial, shifted by one day below 60
 fn shim_link() {
     let v: f64 = kani::any();
+    kani::assume(v >= 0.0 && v < LAST_SERIAL);
     kani::assume(!(60.0 <= v && v < 61.0)); // fictitious 1900-02-29: see the monotonicity obligation
     kani::cover!(v == 59.0);
     kani::cover!(v == 61.0);
@@ -975,18 +982,18 @@ fn monotone_quarter_grid_e9() {
 }
 #[kani::proof]
 #[kani::stub(chrono::TimeDelta::try_milliseconds, rec_try_milliseconds)]
+fn monotone_quarter_grid_e12() {
+    mono_grid(4, 4096, 8191, true);
+}
+#[kani::proof]
+#[kani::stub(chrono::TimeDelta::try_milliseconds, rec_try_milliseconds)]
 fn monotone_quarter_grid_e15() {
     mono_grid(4, 32768, 65535, true);
 }
 #[kani::proof]
 #[kani::stub(chrono::TimeDelta::try_milliseconds, rec_try_milliseconds)]
-fn monotone_quarter_grid_e20() {
-    mono_grid(4, 1048576, 2097151, true);
-}
-#[kani::proof]
-#[kani::stub(chrono::TimeDelta::try_milliseconds, rec_try_milliseconds)]
-fn monotone_quarter_grid_e23() {
-    mono_grid(4, 8388608, 11833863, true);
+fn monotone_quarter_grid_e17() {
+    mono_grid(4, 131072, 262143, true);
 }
 #[kani::proof]
 #[kani::stub(chrono::TimeDelta::try_milliseconds, rec_try_milliseconds)]
